@@ -68,7 +68,10 @@ CLAIMED = {
                      "reaction to an event precedes handing it to the application, at every path.", note=TRUST + GEN, design='DESIGN.md 5 C14'),
     'C15': dict(text="Deductive over the reals: _check_poll / _check_auto_ping (grid point k*r with (k-1)r < t <= kr) / _check_ping_timeout / "
                      "_check_close_timeout decide exactly the property's conditions; _regular yields Poll / Unresponsive / raises in that order "
-                     "and only then; _on_event initialises and updates the timers; run() evaluates housekeeping before each read and after every event.",
+                     "and only then; _on_event initialises and updates the timers; run() evaluates housekeeping before each read and after every event. "
+                     "The multi-cycle statements (first Poll at once, consecutive Polls in [p,2p), never two automatic pings without a grid point between them, "
+                     "Unresponsive within p after T of silence, forced disconnect in [sent+c, sent+c+p)) are LEMMAS over those contracts (contracts/lemmas.py): "
+                     "ghost programs that call the contracts under the inductive hypothesis and are discharged by z3.",
                 note=TRUST + " Floats are treated as reals; time advances only inside selector.wait (virtual-clock assumption); the multi-cycle "
                      "consequences (gaps in [p,2p), one ping per period) follow from these per-evaluation contracts by a pen-and-paper argument.",
                 design='DESIGN.md 5 C15'),
